@@ -361,7 +361,15 @@ class Rig:
         self.daemon.close()
 
 
-FALLBACK_RE = re.compile(r"^Error serializing exception: .*Original exception: <class '([^']+)'>", re.S)
+def describes_original(x, canon):
+    """is x a generic error ABOUT the original exception (not the original itself)?  Its only argument is a text that
+    contains the original's class (as str(type(e))) and its message (str(e)); the wording around them is incidental"""
+    if not canon or len(x.args) != 1 or not isinstance(x.args[0], str):
+        return False
+    if qn(type(x)) == canon["cls"] and repr(x.args) == repr(tuple(dec_plain(a) for a in canon["args"])):
+        return False
+    return canon["typerepr"] in x.args[0] and canon["str"] in x.args[0]
+
 SER_MSGS = ("don't know how to serialize class", "unmarshallable object")
 
 
@@ -380,12 +388,8 @@ def classify(x, sent_any, canon=None, unanswered=True):
     has_tb = bool(tb)
     msg = str(x.args[0]) if x.args and isinstance(x.args[0], str) else ""
     if has_tb:
-        m = FALLBACK_RE.match(msg)
-        if m and len(x.args) == 1:
-            orig = m.group(1)
-            if "." not in orig:
-                orig = "builtins." + orig
-            return {"o": "fallback", "cls": q, "orig": orig, "tb": True, "tbtok": tb_token(tb)}
+        if describes_original(x, canon):
+            return {"o": "fallback", "cls": q, "orig": canon["cls"], "tb": True, "tbtok": tb_token(tb)}
         if any(s in msg for s in SER_MSGS) and len(x.args) == 1:
             return {"o": "sererr", "cls": q}
         probe = (canon or {}).get("serr")
@@ -396,10 +400,8 @@ def classify(x, sent_any, canon=None, unanswered=True):
             return {"o": "raised", "cls": q, "args": [enc(a) for a in x.args], "attrs": attrs}
         except ValueError:
             return {"o": "raised-outside-domain", "cls": q, "repr": repr(x)[:200]}
-    m = FALLBACK_RE.match(msg)
-    if m and len(x.args) == 1:
-        orig = m.group(1)
-        return {"o": "fallback", "cls": q, "orig": orig if "." in orig else "builtins." + orig, "tb": False}
+    if sent_any and describes_original(x, canon) and any(qn(b) == "Pyro5.errors.PyroError" for b in type(x).__mro__):
+        return {"o": "fallback", "cls": q, "orig": canon["cls"], "tb": False}
     if not sent_any:
         return {"o": "local", "cls": q}
     if type(x) is errors.ConnectionClosedError and unanswered:
